@@ -125,6 +125,13 @@ FIXED += [
       "ref_on": "program p\n  x = 1\n  y = 2\n  z = 3\nend program p\n"}),
 ]
 
+FIXED += [
+    ("C20", "superpolynomial-growth:array_nest", "b566d7a", "rule attempts grew exponentially with the depth of nested references a(a(a(...))) (337, 442, 1066, 13546 for depth 1, 2, 4, 8): Data_Ref.match matched a single part-ref completely, discarded it and left it to Part_Ref to match again",
+     {"family": "array_nest", "second": None, "std": "f2003", "sizes": [1, 2, 4, 8, 16]}),
+    ("C20", "superpolynomial-growth:nested_calls", "b566d7a", "same for nested function references f(f(f(1, 2)))",
+     {"family": "nested_calls", "second": None, "std": "f2003", "sizes": [1, 2, 4, 8, 16]}),
+]
+
 OPEN = [
     ("C03", "defined-binary-op-with-dotted-right", "a defined binary operator with a dotted operator or logical literal to its right at the same parenthesis level is not parsed (Expr.match splits at the right-most .word. and gives up if that one is intrinsic)",
      {"mode": "expr", "text": "a .x. b .and. c", "expected": "(a.x.(b.and.c))", "context": "expr", "known": True}),
@@ -186,10 +193,6 @@ OPEN = [
       "key_map": {"reparse-text-differs": "analyze-merges-unnamed-interface-blocks", "reparse-structure-differs": "analyze-merges-unnamed-interface-blocks"}}),
     ("C20", "nested-non-block-labelled-do", "rule attempts grow exponentially with the depth of nested non-block labelled DO loops closed by action statements (777, 1016, 1934, 15650, 227366, ... for depth 1, 2, 4, 8, 12)",
      {"family": "nonblock_do_action", "second": None, "std": "f2003", "sizes": [1, 2, 4, 8]}),
-    ("C20", "superpolynomial-growth:array_nest", "rule attempts grow exponentially with the depth of nested references a(a(a(...))) (337, 442, 1066, 13546 for depth 1, 2, 4, 8)",
-     {"family": "array_nest", "second": None, "std": "f2003", "sizes": [1, 2, 4, 8]}),
-    ("C20", "superpolynomial-growth:nested_calls", "same for nested function references f(f(f(1, 2)))",
-     {"family": "nested_calls", "second": None, "std": "f2003", "sizes": [1, 2, 4, 8]}),
 ]
 
 
